@@ -386,6 +386,22 @@ pub fn run_case(case: &Value, kind: &str, seed: u64) -> Value {
         LOG.with(|l| l.borrow_mut().clear());
         SCORED.with(|l| l.borrow_mut().clear());
         let op = build(&case["e"], kind);
+        // the SAME composition object has a history: it was applied before - once with a component
+        // failing early, once with one failing late or not at all. What it does now is a function of
+        // the expression, the input and the generator, not of what happened to it earlier.
+        if seed % 2 == 1 {
+            for warm in [1 + seed % 3, 4 + seed % 5, 0] {
+                FAIL_AT.with(|f| f.set(warm));
+                CALLS.with(|c| c.set(0));
+                let mut scratch = CountingRng(run_rng(seed, 0xC14, 2 + warm));
+                let _ = op.apply(val_from(&case["x"]), &mut scratch);
+            }
+            WORDS.with(|w| w.set(0));
+            CALLS.with(|c| c.set(0));
+            FAIL_AT.with(|f| f.set(u(&case["failAt"])));
+            LOG.with(|l| l.borrow_mut().clear());
+            SCORED.with(|l| l.borrow_mut().clear());
+        }
         let mut rng = CountingRng(run_rng(seed, 0xC14, 1));
         let res = op.apply(val_from(&case["x"]), &mut rng);
         let log: Vec<Value> = LOG.with(|l| l.borrow().clone());
